@@ -25,8 +25,10 @@ LEVEL_TEXT = ("static analysis: (D1) _parse_records interpreted on symbolic reco
               "heterozygous() interpreted for real (a fresh 0..n-1 index, or the full array's labels on a renumbered subset, would be aligned by "
               "label onto the wrong variants). (D7) do_call takes a segment's BAF from baf_by_ranges (interpreted; into_ranges labelled as the "
               'real function labels it) over the final segments -- after the ci / sem merges, before the cn filters -- and the values stay on '
-              "their own segments of a table whose index is not 0..n-1. Does not decide pysam's parsing, the median aggregation values, nor "
-              "heterozygous()'s documented fallback.")
+              'their own segments of a table whose index is not 0..n-1. D2 includes FORMAT fields that are listed but missing ((None,) / None): '
+              'the next count source is used. D7 also decides, for calling method {threshold, clonal, none} x purity {absent, 1, 1/2}, that the '
+              "baf column is rescale_baf(purity, observed) exactly when purity < 1. Does not decide pysam's parsing, the median aggregation "
+              "values, nor heterozygous()'s documented fallback.")
 TECHNIQUE = "abstract interpretation over finite genotype / field-presence domains and order positions; exact rational identities; index-provenance (fresh vs aligned Series) tracking"
 
 V = "skgenome.tabio.vcfio"
@@ -474,6 +476,10 @@ def run(chk):
     d5(chk, prog)
     d6(chk, prog)
     d7(chk, prog)
+    chk.clause("CLI", "the `call` / `segment` command lines: -v, -i, -n, --min-variant-depth, -z reach load_het_snps as given")
+    from .. import cliglue
+    cliglue.check_call(chk, prog)
+    cliglue.check_segment(chk, prog)
 
 
 _V = "skgenome/tabio/vcfio.py"
